@@ -77,12 +77,32 @@ Added probe family (round 9, harness/v9_c01.py, `bit_runs`):
     bytes / bytearray / memoryview / BytesIO / real file object / BufferedReader, T.reads(x), T.read at stream offsets 3 and 32.
     Refusals: a bit-field of the run set to 2**bits, 2**bits + 1, 2**width, -1 must make dumps raise.  Known findings met and
     classified: F23 (aligned runs on 24 / 48 bit storage types), F43 (aligned structure read / written at stream offset 3).
+
+Added probe family (round 10, harness/v10_c01.py, `wide_text` / `wide_text_standalone`):
+  * CODE POINTS vs CODE UNITS.  A wchar array of n entries holds n UTF-16 code units, its Python value is a str whose len() counts code
+    points; the two differ exactly on characters outside the basic plane (surrogate pairs), which neither random bytes nor ASCII text
+    ever produce.  Text members in every form - wchar c, wchar s[n] (also through an array typedef), s[expression over a count member],
+    s[] (null-terminated), s[EOF], s[m][n]; `wchar` spelled by every name of the live type table or a user typedef - between ordinary
+    members (integers of every width, char arrays, enums) at the top, in named / anonymous nested structures, in arrays of structures
+    and as a union member next to integer views of the same bytes; definitions through cs.load, cs.loadfile, the legacy parser, the API
+    (cs._make_struct / cs._make_union / add_field, compiler.compile); interpreted / compiled, packed / aligned, byte order spelled
+    '<' '>' '!' '@' '='.  Values: strings of EXACTLY the declared number of units with astral characters (U+10000, U+10400, U+1F600,
+    U+10FFFF ...) at every position - one, several, only such - mixed with BMP characters of every kind (and NUL where the form allows
+    it); constructed from keyword arguments (plain str / typed instances) and parsed from the module's own textbook UTF-16 encoding
+    (units by arithmetic, textbook alignment padding) followed by foreign bytes.  Predicates: check_roundtrip / check_constructed
+    (parse(dumps(v)) == v, consumed == len(dumps(v)), model write / read compared); len(dumps(v)) == the declared size where the type
+    has one; the value parsed back compared member by member with the plain Python values put in (text by code units, the members
+    BEHIND it by their numbers) without the library's __eq__; again through drawn pairs of calling conventions (v.dumps / T.dumps /
+    v.write / T.write at offsets 0, 3, 32; T(x) / T.read / cs.read / T.reads over bytes, bytearray, memoryview, BytesIO, a real file,
+    a BufferedReader).  The same for the stand-alone array types (typedef'd and cs.resolve(spelling)[n] / [None] / [EOF] / [K2 + 1] /
+    two-dimensional): dumps(v) has 2 bytes per unit (+ terminator), parses back to v, is consumed exactly.  Known findings met and
+    classified: F30 (aligned structure ending in s[EOF]), F43 (aligned structure at stream offset 3).
 """
 from __future__ import annotations
 
 import itertools
 
-from .. import defs, impl, refimpl, s1_hist, s1_mixed, u1_arrays, v4_c01, v8_c01, v9_c01
+from .. import defs, impl, refimpl, s1_hist, s1_mixed, u1_arrays, v4_c01, v8_c01, v9_c01, v10_c01
 from ..common import Result, mkrng
 from ..structprops import Engine, load, real_parse, small_unit_bits, rand_bytes, has_eof, has_union, union_dump_incomplete, union_anon_nested
 
@@ -436,7 +456,14 @@ def run(env) -> Result:
                 "values parsed from random bytes and constructed from keywords; the predicate also through drawn pairs of calling "
                 "conventions (v.dumps / T.dumps / v.write / T.write at stream offsets 0, 3, 32; T(x) / T.read(x) / T.reads(x) / cs.read(name, "
                 "x) over bytes, bytearray, memoryview, BytesIO, a real file, a BufferedReader); bit-field values that do not fit must be "
-                "refused. distinct = (definition, config, value bytes); non-trivial = >= 2 fields or a composite field and >= 2 bytes")
+                "refused. Plus code points vs code units: wchar members in every form (c, s[n], array typedef, s[expression], s[], s[EOF], "
+                "s[m][n]; every spelling of wchar) between ordinary members, at the top / nested / anonymous / in arrays of structures / in "
+                "unions, brought in by cs.load, cs.loadfile, the legacy parser, the API; x {<, >, !, @, =} x {packed, aligned} x {interpreted, "
+                "compiled}; values of exactly the declared number of UTF-16 units with characters outside the basic plane at every position, "
+                "mixed with BMP characters, constructed from keywords and parsed from an independent textbook encoding; predicates: round-"
+                "trip with exact consumption, len(dumps(v)) == declared size, the members behind the text compared with the numbers put in, "
+                "also through the calling conventions; the same for stand-alone wchar array types. "
+                "distinct = (definition, config, value bytes); non-trivial = >= 2 fields or a composite field and >= 2 bytes")
     eng = Engine(env, res, "C01")
     rnd = mkrng(env["seed"], "c01")
     tier = env["tier"]
@@ -520,6 +547,9 @@ def run(env) -> Result:
     v8_c01.wide_standalone(eng, res, mkrng(env["seed"], "c01-magnitudes-standalone"), tier)
     eng.flush()
     v9_c01.bit_runs(eng, res, mkrng(env["seed"], "c01-bit-runs"), tier, check_roundtrip=check_roundtrip, check_constructed=check_constructed)
+    eng.flush()
+    v10_c01.wide_text(eng, res, mkrng(env["seed"], "c01-wide-text"), tier, check_roundtrip=check_roundtrip, check_constructed=check_constructed)
+    v10_c01.wide_text_standalone(eng, res, mkrng(env["seed"], "c01-wide-text-standalone"), tier)
     eng.flush()
     return res
 
